@@ -10,6 +10,14 @@ fn cut(rng: &mut Rng, data: &[u8]) -> [Vec<u8>; 5] {
     pts.sort();
     [data[..pts[0]].to_vec(), data[pts[0]..pts[1]].to_vec(), data[pts[1]..pts[2]].to_vec(), data[pts[2]..pts[3]].to_vec(), data[pts[3]..].to_vec()]
 }
+/// salts and keys with history: all-zero, all-ones, the previous value again, the previous value with
+/// one bit changed, otherwise random (a result must depend on the arguments of THIS call only)
+fn next_salt(rng: &mut Rng, k: usize, prev: &[u8; 16]) -> [u8; 16] {
+    match k % 9 { 0 => [0u8; 16], 3 => [0xff; 16], 5 => *prev, 7 => { let mut s = *prev; s[rng.below(16) as usize] ^= 1 << rng.below(8); s } _ => rng.arr() }
+}
+fn next_key(rng: &mut Rng, k: usize, prev: &[u8; 32]) -> [u8; 32] {
+    match k % 11 { 0 => [0u8; 32], 4 => [0xff; 32], 6 => *prev, _ => rng.arr() }
+}
 fn spec(files: &[u8], salt: &[u8; 16], key: &[u8; 32]) -> [u8; 20] { sha(&[key, &hmac_sha1(salt, files)]) }
 
 pub fn run(ctx: &mut Ctx) {
@@ -18,9 +26,11 @@ pub fn run(ctx: &mut Ctx) {
     // hasher in pages has its boundary cases there)
     let mut lens: Vec<usize> = vec![0, 1, 54, 55, 56, 57, 63, 64, 65, 118, 119, 120, 121, 127, 128, 129, 183, 184, 500, 700, 4096, 8192];
     for _ in 0..(if ctx.quick() { 30 } else { 400 }) { lens.push(rng.range(0, 700) as usize); }
+    let (mut psalt, mut pkey) = ([0x55u8; 16], [0xaau8; 32]);
     for (i, len) in lens.iter().enumerate() {
         let data = rng.bytes(*len);
-        let salt: [u8; 16] = rng.arr(); let key: [u8; 32] = rng.arr();
+        let salt = next_salt(&mut rng, i + 1, &psalt); let key = next_key(&mut rng, i + 1, &pkey);
+        psalt = salt; pkey = key;
         let f = cut(&mut rng, &data);
         let label = if *len == 0 { "trivial:empty files" } else { "files" };
         let w = catch(|| login_integrity_check_windows(&f[0], &f[1], &f[2], &f[3], &f[4], &salt, &key));
@@ -41,7 +51,8 @@ pub fn run(ctx: &mut Ctx) {
         const EDGE: [usize; 16] = [511, 512, 513, 1023, 1024, 1025, 4095, 4096, 4097, 8191, 8192, 12288, 16384, 32768, 65535, 65536];
         let len = if k % 50 == 0 { rng.range(0, 20000) as usize } else if k % 50 == 1 { EDGE[(k / 50) % 16] } else { rng.range(0, 400) as usize };
         let data = rng.bytes(len);
-        let salt: [u8; 16] = rng.arr(); let key: [u8; 32] = rng.arr();
+        let salt = next_salt(&mut rng, k + 1, &psalt); let key = next_key(&mut rng, k + 1, &pkey);
+        psalt = salt; pkey = key;
         let (f, g) = (cut(&mut rng, &data), cut(&mut rng, &data));
         ctx.oracle_runs += 1;
         let want = spec(&data, &salt, &key);
